@@ -50,6 +50,19 @@ def _oracle_f(eng, st, args, kw, node):
     raise Fork(node, [('f-returns', None, 'value', v, ok), ('f-raises', None, 'raise', SExc(term=e), bad)])
 
 
+def _randint(eng, st, args, kw, node):
+    # assumed contract of random.randint(a, b): an integer in [a, b], BOTH ends included
+    a, b = eng.num(args[0]), eng.num(args[1])
+    eng.oblige(st, 'call/random.randint/non-empty-range@L%d' % node.lineno, a <= b, kind='safety')
+    r = z3.Int(pyvc.fresh_name('randint'))
+    st.assume(z3.And(a <= r, r <= b))
+    return r
+
+
+def _uniform(eng, st, args, kw, node):
+    raise core.Undecided('random.uniform: float jitter is outside the integer contract of delay_ms_for_try')
+
+
 def _randrange(eng, st, args, kw, node):
     n = eng.num(args[0])
     eng.oblige(st, 'call/random.randrange/arg-positive@L%d' % node.lineno, n > 0, kind='safety')
@@ -102,7 +115,7 @@ DELAY = Contract(
     qualname='delay_ms_for_try',
     types={'tries': 'int', 'base_delay_ms': 'int', 'max_delay_ms': 'int', 'result': 'int'},
     requires=['tries >= 0', 'base_delay_ms >= 1', 'max_delay_ms >= 0'],
-    calls={'random.randrange': _randrange},
+    calls={'random.randrange': _randrange, 'random.randint': _randint, 'random.uniform': _uniform},
     ensures=[
         ('lower-bound', "result >= min((base_delay_ms * (1 << min(tries, 30))) // 2, max_delay_ms)"),
         ('upper-bound', "result <= min(base_delay_ms * (1 << min(tries, 30)), max_delay_ms)"),
@@ -330,7 +343,45 @@ print(json.dumps(res))
 '''
 
 
+# ---- classification: every rate-limit failure is also transient ---------------------------------------------------------------
+# sync_retry_transient_errors (and every caller that classifies with is_transient_error alone) retries a rate-limit failure only
+# if is_transient_error says so; the property asks for "every transient or rate-limit failure" to be retried by the helpers.
+
+RATE = ("((isinst_aiohttp and e.status == 429) or (isinst_httpx and (e.status == 429 or (e.status == 403 and 'rateLimitExceeded' in e.body))))")
+
+
+def _isinstance_model(eng, st, args, kw, node):
+    cls = node.args[1]
+    name = pyvc._dotted(cls)
+    if name == 'aiohttp.ClientResponseError':
+        return st.env['isinst_aiohttp']
+    if name == 'hailtop.httpx.ClientResponseError':
+        return st.env['isinst_httpx']
+    if name is None:
+        raise core.Undecided('isinstance against a computed class')
+    return eng.uf('isinst_' + name.replace('.', '_'), ['U'], 'bool')(to_z3(args[0], 'U'))
+
+
+def classifier_contracts():
+    types = {'e': 'U', '.status': 'int', '.body': 'str', '.error_codes': 'Array[U, bool]'}
+    common = dict(path=PATH, types=types, strings=True, calls={'isinstance': _isinstance_model})
+    XI = {'isinst_aiohttp': 'bool', 'isinst_httpx': 'bool'}
+    a = Contract(qualname='is_rate_limit_error', ensures=[('true-exactly-for-429-and-google-403-rate-limit-responses', 'result == %s' % RATE)], raises={}, canaries=[('never-true', 'result == False')], extra_inputs=dict(XI), **common)
+    b = Contract(
+        qualname='is_transient_error', label='is_transient_error[http clauses]', fragment=('re:^if isinstance\\(e, aiohttp\\.ClientResponseError\\)', 3),
+        ensures=[('a-rate-limit-failure-is-classified-transient-by-the-http-clauses', 'implies(%s, result == True)' % RATE)], raises={},
+        canaries=[('everything-transient', 'result == True')], extra_inputs=dict(XI, e='U'), **common)
+    return [a, b]
+
+
+def native_witness(ctx):
+    """concrete search on the real code, usable when the contracts no longer apply to a changed source (vc/check.py)"""
+    return (lambda r1, r2: r1 if r1.get('confirmed') else r2)(core.run_native(REPLAY, {'search': True}), core.run_native(REPLAY_RETRY, {}))
+
+
 def build(ctx):
+    for c in classifier_contracts():
+        pyvc.Engine(ctx, c).run()
     eng = pyvc.Engine(ctx, DELAY)
     eng.replayer = _delay_replayer(eng)
     eng.run()
